@@ -122,5 +122,38 @@ def fill(chk, not_yet):
         "the two table classes the property excludes are never generated.",
         "runtime monitoring: reference filter + metamorphic (row permutation) oracle over generated tables",
         "DESIGN.md 4/C17")
+    chk("C10", "exploration",
+        "get_map_node_ccfs_and_clonal_prev_dicts on generated trees: values on the CCF grid, per-sample feasibility "
+        "(clone >= sum of children, top-level sum <= 1), objective value equal to a brute-force maximum (<=4 clones, G<=6) "
+        "or an independent max-plus recursion (<=10 clones, 8 children, G 11/21/101, flat all-tie data included), "
+        "prevalence = ccf - children >= -1e-12.",
+        "ties accepted (only the attained value is compared); the two reference maximisers cross-check each other.",
+        "runtime monitoring: reference-model oracle (brute force / max-plus recursion) over generated trees",
+        "DESIGN.md 4/C10")
+    chk("C11", "exploration",
+        "Outputs of write_map_results (both modes) and write_topology_report (+archive, top_trees none/1/2/3) on synthetic "
+        "traces (1-4 chains in random insertion order, unequal lengths, repeated / relabelled / sibling-shuffled copies of "
+        "the same tree, exact ties) against a reference summariser grouping entries by canonical key: maximum, counts, "
+        "scores, pointers, ranking, archive membership and member/row consistency.",
+        "scores read back from TSV compared at 1e-12 relative (text round trip); chain 0 always present.",
+        "runtime monitoring: offline checker over recorded traces against a reference summariser",
+        "DESIGN.md 4/C11")
+    chk("C12", "exploration",
+        "TABLE+TREE written by map, topology-report archive and consensus on synthetic traces whose best / most frequent "
+        "entry is a designated corner tree (single clone, all outliers, one outlier, all-but-one outliers, deep chain, "
+        "many top-level clones) or a random tree, clustered (integer ids, 1-3 mutations per cluster) or not, 1-3 samples: "
+        "every (mutation, sample) once, clone ids in Newick or -1, clusters share a clone, per-clone ccf/prev, -1/-1 for "
+        "outliers, command completes.",
+        "optimality of the per-clone values belongs to C10.",
+        "runtime monitoring: offline checker of written result files over generated traces",
+        "DESIGN.md 4/C12")
+    chk("C16", "exploration",
+        "get_consensus_tree + get_tree_from_consensus_graph and the consensus command's files on synthetic traces built "
+        "from structured mixtures (clades fully covered by majority-supported children - one, two -, nested conflicts, "
+        "nothing retained, identical trees, dominant tree, outliers) x thresholds {0.5..1.0} x both weightings against "
+        "reference supports: clade set = clades with support strictly above the threshold, valid tree, uncovered -> -1.",
+        "cases with a support within 1e-9 of the threshold are skipped (the property's quantifier).",
+        "runtime monitoring: reference-model oracle (clade supports) over generated traces",
+        "DESIGN.md 4/C16")
     for pid in ["C02","C03","C05","C06","C07","C08","C09","C10","C11","C12","C13","C14","C15","C16","C17","C18","C19","C20"]:
         not_yet[pid] = "check under construction in this session (runtime monitor designed in DESIGN.md section 4); not claimed until it runs clean"
